@@ -130,8 +130,8 @@ PROPS = {
     },
     "C02": {
         "cli": True,
-        "extra_imports": ["Gofasta.Lemmas.FanoutCommands", "Gofasta.Props.ColsSam", "Gofasta.Lemmas.PairSingle", "Gofasta.Lemmas.PairSpec", "Gofasta.Lemmas.PairMulti", "Gofasta.Lemmas.PairSkipIns", "Gofasta.Lemmas.FromBytes"],
-        "extra_theorems": ["Gofasta.Lemmas.FanoutCommands.topa_stdout_every_schedule", "Gofasta.Lemmas.FanoutCommands.topa_dir_every_schedule", "Gofasta.Props.Cols.sam_skip", "Gofasta.Lemmas.FromBytes.toPairAlign_from_bytes", "Gofasta.Lemmas.FromBytes.toPairAlign_keepIns_from_bytes", "Gofasta.Lemmas.PairSkipIns.toPairAlign_spec", "Gofasta.Lemmas.PairSkipIns.pairOfBlock_skipIns", "Gofasta.Lemmas.PairSkipIns.walkWithRef_noIns_query", "Gofasta.Lemmas.PairMulti.blockToSeqPair_eq_specPair", "Gofasta.Lemmas.PairMulti.multi_ref_lossless", "Gofasta.Lemmas.PairMulti.multi_lengths",
+        "extra_imports": ["Gofasta.Lemmas.TopaDirFixed", "Gofasta.Lemmas.FanoutCommands", "Gofasta.Props.ColsSam", "Gofasta.Lemmas.PairSingle", "Gofasta.Lemmas.PairSpec", "Gofasta.Lemmas.PairMulti", "Gofasta.Lemmas.PairSkipIns", "Gofasta.Lemmas.FromBytes"],
+        "extra_theorems": ["Gofasta.Lemmas.TopaDirFixed.topa_dir_fixed_every_schedule", "Gofasta.Lemmas.TopaDirFixed.topa_dir_fixed_model", "Gofasta.Lemmas.FanoutCommands.topa_stdout_every_schedule", "Gofasta.Lemmas.FanoutCommands.topa_dir_every_schedule", "Gofasta.Props.Cols.sam_skip", "Gofasta.Lemmas.FromBytes.toPairAlign_from_bytes", "Gofasta.Lemmas.FromBytes.toPairAlign_keepIns_from_bytes", "Gofasta.Lemmas.PairSkipIns.toPairAlign_spec", "Gofasta.Lemmas.PairSkipIns.pairOfBlock_skipIns", "Gofasta.Lemmas.PairSkipIns.walkWithRef_noIns_query", "Gofasta.Lemmas.PairMulti.blockToSeqPair_eq_specPair", "Gofasta.Lemmas.PairMulti.multi_ref_lossless", "Gofasta.Lemmas.PairMulti.multi_lengths",
                            "Gofasta.Lemmas.PairMulti.multi_gap_count", "Gofasta.Lemmas.PairMulti.multi_skip_insertions", "Gofasta.Lemmas.PairMulti.toPairAlign_keepIns_spec",
                            "Gofasta.Lemmas.PairSpec.specPair_lossless", "Gofasta.Lemmas.PairSpec.specPair_skip_insertions",
                            "Gofasta.Lemmas.PairSpec.specPair_lengths", "Gofasta.Lemmas.blockToSeqPair_single", "Gofasta.Lemmas.single_ref_lossless", "Gofasta.Lemmas.single_lengths",
@@ -194,8 +194,8 @@ PROPS = {
                 "encoding/csv + getAmbArr + Atoi (ok / error / panic)",
     },
     "C12": {
-        "extra_imports": ["Gofasta.Lemmas.FanoutCommands", "Gofasta.Lemmas.FanoutProofs", "Gofasta.Lemmas.SchedCommands", "Gofasta.Lemmas.AggVariants", "Gofasta.Props.Pipes", "Gofasta.Lemmas.SchedProofs", "Gofasta.Lemmas.SchedChainProofs"],
-        "extra_theorems": ["Gofasta.Lemmas.FanoutCommands.closest_every_schedule", "Gofasta.Lemmas.FanoutCommands.closestN_every_schedule", "Gofasta.Lemmas.FanoutCommands.topranking_every_schedule", "Gofasta.Lemmas.FanoutCommands.topa_stdout_every_schedule", "Gofasta.Lemmas.FanoutCommands.topa_dir_every_schedule", "Gofasta.Lemmas.FanoutCommands.topa_dir_last_arrival", "Gofasta.Lemmas.FanoutCommands.closest_maximal_run", "Gofasta.Lemmas.FanoutCommands.closestN_maximal_run", "Gofasta.Lemmas.FanoutCommands.topranking_maximal_run", "Gofasta.Lemmas.Fanout.fanout_in_order", "Gofasta.Lemmas.Fanout.fanout_lockstep", "Gofasta.Lemmas.Fanout.fanout_slot", "Gofasta.Lemmas.Fanout.fanout_result", "Gofasta.Lemmas.Fanout.fanout_result_eq", "Gofasta.Lemmas.Fanout.fanout_no_deadlock", "Gofasta.Lemmas.Fanout.no_panic", "Gofasta.Lemmas.Fanout.buffer_bounded", "Gofasta.Lemmas.Fanout.fanout_terminates", "Gofasta.Lemmas.Fanout.fanout_maximal_run", "Gofasta.Lemmas.Fanout.runSchedule_returns", "Gofasta.Lemmas.Fanout.Demo.stepTwoForwarders_schedule_dependent", "Gofasta.Lemmas.SchedCommands.text_writer_every_schedule", "Gofasta.Lemmas.SchedCommands.chain_text_writer_every_schedule", "Gofasta.Lemmas.SchedCommands.snps_every_schedule", "Gofasta.Lemmas.SchedCommands.snps_aggregate_every_schedule", "Gofasta.Lemmas.SchedCommands.updown_list_every_schedule", "Gofasta.Lemmas.SchedCommands.toma_every_schedule", "Gofasta.Lemmas.SchedCommands.variants_every_schedule", "Gofasta.Lemmas.SchedCommands.variants_aggregate_every_schedule", "Gofasta.Lemmas.SchedCommands.variants_aggregate_model_every_schedule", "Gofasta.Lemmas.SchedCommands.sam_variants_every_schedule", "Gofasta.Lemmas.SchedCommands.sam_variants_command_every_schedule", "Gofasta.Lemmas.SchedCommands.sam_variants_aggregate_every_schedule", "Gofasta.Lemmas.SchedCommands.sam_variants_every_schedule_rows", "Gofasta.Lemmas.SchedCommands.snps_maximal_run", "Gofasta.Lemmas.SchedCommands.snps_aggregate_maximal_run", "Gofasta.Lemmas.SchedCommands.updown_list_maximal_run", "Gofasta.Lemmas.SchedCommands.toma_maximal_run", "Gofasta.Lemmas.SchedCommands.variants_maximal_run", "Gofasta.Lemmas.SchedCommands.sam_variants_maximal_run", "Gofasta.Lemmas.SchedChain.reach_inv", "Gofasta.Lemmas.SchedChain.chain_success_means_complete", "Gofasta.Lemmas.SchedChain.chain_reorder_writer_in_order", "Gofasta.Lemmas.SchedChain.chain_commutative_writer", "Gofasta.Lemmas.SchedChain.chain_no_deadlock", "Gofasta.Lemmas.SchedChain.chain_terminates", "Gofasta.Lemmas.SchedChain.chain_maximal_run_returned", "Gofasta.Lemmas.SchedChain.chain_error_reported", "Gofasta.Lemmas.SchedChain.chain_maximal_run_error", "Gofasta.Lemmas.SchedChain.chain_error_has_source", "Gofasta.Lemmas.SchedChain.chain_no_spurious_error", "Gofasta.Lemmas.SchedChain.chain_maximal_run_success", "Gofasta.Lemmas.SchedChain.chain_no_panic", "Gofasta.Lemmas.SchedChain.chain_no_send_on_closed", "Gofasta.Lemmas.SchedChain.chain_no_sender_on_closed", "Gofasta.Lemmas.SchedChain.chain_buffers_bounded", "Gofasta.Lemmas.SchedChain.chain_closed_prefix", "Gofasta.Lemmas.SchedChain.runSchedule_returns", "Gofasta.Lemmas.SchedChain.OnePool.chain_one_pool_agrees", "Gofasta.Lemmas.SchedChain.OnePool.chain_one_pool_outcomes",
+        "extra_imports": ["Gofasta.Lemmas.TopaDirFixed", "Gofasta.Lemmas.FanoutCommands", "Gofasta.Lemmas.FanoutProofs", "Gofasta.Lemmas.SchedCommands", "Gofasta.Lemmas.AggVariants", "Gofasta.Props.Pipes", "Gofasta.Lemmas.SchedProofs", "Gofasta.Lemmas.SchedChainProofs"],
+        "extra_theorems": ["Gofasta.Lemmas.TopaDirFixed.topa_dir_fixed_every_schedule", "Gofasta.Lemmas.TopaDirFixed.topa_dir_fixed_deterministic", "Gofasta.Lemmas.TopaDirFixed.topa_dir_fixed_model", "Gofasta.Lemmas.TopaDirFixed.chain_dir_writer_every_schedule", "Gofasta.Lemmas.TopaDirFixed.chain_dir_writer_deterministic", "Gofasta.Lemmas.FanoutCommands.closest_every_schedule", "Gofasta.Lemmas.FanoutCommands.closestN_every_schedule", "Gofasta.Lemmas.FanoutCommands.topranking_every_schedule", "Gofasta.Lemmas.FanoutCommands.topa_stdout_every_schedule", "Gofasta.Lemmas.FanoutCommands.topa_dir_every_schedule", "Gofasta.Lemmas.FanoutCommands.topa_dir_last_arrival", "Gofasta.Lemmas.FanoutCommands.closest_maximal_run", "Gofasta.Lemmas.FanoutCommands.closestN_maximal_run", "Gofasta.Lemmas.FanoutCommands.topranking_maximal_run", "Gofasta.Lemmas.Fanout.fanout_in_order", "Gofasta.Lemmas.Fanout.fanout_lockstep", "Gofasta.Lemmas.Fanout.fanout_slot", "Gofasta.Lemmas.Fanout.fanout_result", "Gofasta.Lemmas.Fanout.fanout_result_eq", "Gofasta.Lemmas.Fanout.fanout_no_deadlock", "Gofasta.Lemmas.Fanout.no_panic", "Gofasta.Lemmas.Fanout.buffer_bounded", "Gofasta.Lemmas.Fanout.fanout_terminates", "Gofasta.Lemmas.Fanout.fanout_maximal_run", "Gofasta.Lemmas.Fanout.runSchedule_returns", "Gofasta.Lemmas.Fanout.Demo.stepTwoForwarders_schedule_dependent", "Gofasta.Lemmas.SchedCommands.text_writer_every_schedule", "Gofasta.Lemmas.SchedCommands.chain_text_writer_every_schedule", "Gofasta.Lemmas.SchedCommands.snps_every_schedule", "Gofasta.Lemmas.SchedCommands.snps_aggregate_every_schedule", "Gofasta.Lemmas.SchedCommands.updown_list_every_schedule", "Gofasta.Lemmas.SchedCommands.toma_every_schedule", "Gofasta.Lemmas.SchedCommands.variants_every_schedule", "Gofasta.Lemmas.SchedCommands.variants_aggregate_every_schedule", "Gofasta.Lemmas.SchedCommands.variants_aggregate_model_every_schedule", "Gofasta.Lemmas.SchedCommands.sam_variants_every_schedule", "Gofasta.Lemmas.SchedCommands.sam_variants_command_every_schedule", "Gofasta.Lemmas.SchedCommands.sam_variants_aggregate_every_schedule", "Gofasta.Lemmas.SchedCommands.sam_variants_every_schedule_rows", "Gofasta.Lemmas.SchedCommands.snps_maximal_run", "Gofasta.Lemmas.SchedCommands.snps_aggregate_maximal_run", "Gofasta.Lemmas.SchedCommands.updown_list_maximal_run", "Gofasta.Lemmas.SchedCommands.toma_maximal_run", "Gofasta.Lemmas.SchedCommands.variants_maximal_run", "Gofasta.Lemmas.SchedCommands.sam_variants_maximal_run", "Gofasta.Lemmas.SchedChain.reach_inv", "Gofasta.Lemmas.SchedChain.chain_success_means_complete", "Gofasta.Lemmas.SchedChain.chain_reorder_writer_in_order", "Gofasta.Lemmas.SchedChain.chain_commutative_writer", "Gofasta.Lemmas.SchedChain.chain_no_deadlock", "Gofasta.Lemmas.SchedChain.chain_terminates", "Gofasta.Lemmas.SchedChain.chain_maximal_run_returned", "Gofasta.Lemmas.SchedChain.chain_error_reported", "Gofasta.Lemmas.SchedChain.chain_maximal_run_error", "Gofasta.Lemmas.SchedChain.chain_error_has_source", "Gofasta.Lemmas.SchedChain.chain_no_spurious_error", "Gofasta.Lemmas.SchedChain.chain_maximal_run_success", "Gofasta.Lemmas.SchedChain.chain_no_panic", "Gofasta.Lemmas.SchedChain.chain_no_send_on_closed", "Gofasta.Lemmas.SchedChain.chain_no_sender_on_closed", "Gofasta.Lemmas.SchedChain.chain_buffers_bounded", "Gofasta.Lemmas.SchedChain.chain_closed_prefix", "Gofasta.Lemmas.SchedChain.runSchedule_returns", "Gofasta.Lemmas.SchedChain.OnePool.chain_one_pool_agrees", "Gofasta.Lemmas.SchedChain.OnePool.chain_one_pool_outcomes",
                            "Gofasta.Lemmas.Sched.reach_inv", "Gofasta.Lemmas.Sched.success_means_complete", "Gofasta.Lemmas.Sched.reorder_writer_in_order", "Gofasta.Lemmas.Sched.commutative_writer", "Gofasta.Lemmas.Sched.counting_writer", "Gofasta.Lemmas.Sched.no_deadlock", "Gofasta.Lemmas.Sched.maximal_run_returned", "Gofasta.Lemmas.Sched.terminates", "Gofasta.Lemmas.Sched.run_length_le", "Gofasta.Lemmas.Sched.runSchedule_returns", "Gofasta.Lemmas.Sched.error_reported", "Gofasta.Lemmas.Sched.maximal_run_error", "Gofasta.Lemmas.Sched.error_has_source", "Gofasta.Lemmas.Sched.no_spurious_error", "Gofasta.Lemmas.Sched.maximal_run_success", "Gofasta.Lemmas.Sched.no_panic", "Gofasta.Lemmas.Sched.no_send_on_closed", "Gofasta.Lemmas.Sched.close_once", "Gofasta.Lemmas.Sched.buffers_bounded",
                            "Gofasta.Props.Pipes.drivers_conform", "Gofasta.Props.Pipes.fanouts_conform", "Gofasta.Props.Pipes.pools_have_workers", "Gofasta.Props.Pipes.inner_error_arms", "Gofasta.Lemmas.AggVariants.variants_aggregate_model_deterministic", "Gofasta.Lemmas.AggVariants.variants_aggregate_any_order",
                            "Gofasta.Lemmas.AggVariants.aggLt_not_swo", "Gofasta.Lemmas.AggVariants.tie_hypothesis_needed"],
